@@ -21,11 +21,22 @@ pub fn classify(pristine: i32, full: &str) -> EntKind {
         Ok(st) => match st.st_mode & libc::S_IFMT {
             libc::S_IFDIR => EntKind::Dir,
             libc::S_IFLNK => {
-                let body = sys::readlinkat(pristine, full.as_bytes()).unwrap_or_default();
-                if body.starts_with(b"/") || body.contains(&b'[') || body.is_empty() || body.ends_with(b"(deleted)") {
-                    EntKind::Magic
-                } else {
-                    EntKind::RelLink
+                // exact: the kernel itself says whether the trailing link is a magic-link
+                // (RESOLVE_NO_MAGICLINKS = 0x02 refuses those with ELOOP and nothing else here)
+                match sys::openat2(pristine, full.as_bytes(), libc::O_PATH as u64, 0, 0x02) {
+                    Ok(fd) => {
+                        sys::close(fd);
+                        EntKind::RelLink
+                    }
+                    Err(libc::ELOOP) => EntKind::Magic,
+                    Err(_) => {
+                        let body = sys::readlinkat(pristine, full.as_bytes()).unwrap_or_default();
+                        if body.starts_with(b"/") || body.contains(&b'[') || body.is_empty() || body.ends_with(b"(deleted)") {
+                            EntKind::Magic
+                        } else {
+                            EntKind::RelLink
+                        }
+                    }
                 }
             }
             _ => EntKind::File,
